@@ -44,6 +44,15 @@ CHECKS["C07"] = dict(
     note="Reference cdfs from vp/oracles/formulas.py (decided against virocon by C05); von Mises compared modulo 2 pi against a quadrature table.",
     design="7/C07",
 )
+CHECKS["C06"] = dict(
+    technique="property-based testing (Hypothesis): differential against an independent closed-form product of conditional densities and against nested 1-D quadrature over the ancestor chain (conditional cdfs); Beta order-statistic bound for the Monte-Carlo quantile",
+    text="Generated 2-4-D hierarchical models over the non-negative families with every conditional_on structure; points in bulk and tails; row/list/array/integer input forms. "
+         "model.pdf equals the reference factorisation (rtol 1e-9) and integrates to 1 (nested Gauss-Legendre, 1e-6); model.cdf, marginal_pdf and marginal_cdf equal ancestor-chain "
+         "quadrature references that use the conditional cdf/pdf formulas rather than nquad of the joint pdf; marginal_icdf is exact for unconditional variables and within the "
+         "order-statistic Beta interval otherwise. Exploration; the number of cdf/marginal points is bounded by the implementation's own cost (seconds to minutes per point).",
+    note="Reference formulas decided by C05; bounded dependence shapes only (virocon integrates to infinity, parameters must stay admissible for every x>=0); 3-D cdf only in the thorough tier.",
+    design="7/C06",
+)
 NOT_YET = {}
 
 def main():
